@@ -137,9 +137,11 @@ impl VC {
     top.insert("vc".into(), vc); Value::Object(top)
   }
 }
+/// nonce 0 is the EMPTY string: present, and different from an absent nonce
+pub fn nonce_str(n: i64) -> String { if n == 0 { String::new() } else { format!("n{n}") } }
 pub fn jws(kid: Option<String>, nonce: Option<i64>, claims: &Value, sigkey: i64) -> String {
   let mut h = Map::new(); h.insert("alg".into(), json!("EdDSA")); h.insert("typ".into(), json!("JWT"));
-  if let Some(k) = kid { h.insert("kid".into(), json!(k)); } if let Some(n) = nonce { h.insert("nonce".into(), json!(format!("n{n}"))); }
+  if let Some(k) = kid { h.insert("kid".into(), json!(k)); } if let Some(n) = nonce { h.insert("nonce".into(), json!(nonce_str(n))); }
   format!("{}.{}.{}", identity_jose::jwu::encode_b64(serde_json::to_vec(&Value::Object(h)).unwrap()), identity_jose::jwu::encode_b64(serde_json::to_vec(claims).unwrap()), identity_jose::jwu::encode_b64(key_bytes(sigkey)))
 }
 pub fn err_code(e: &JwtValidationError) -> i64 {
@@ -177,7 +179,7 @@ impl Case {
   }
 }
 pub fn jws_options(c: &Case) -> JwsVerificationOptions {
-  let mut vo = JwsVerificationOptions::default(); if let Some(n) = c.o_nonce { vo = vo.nonce(format!("n{n}")); } if let Some(s) = scope_of(c.scope) { vo = vo.method_scope(s); }
+  let mut vo = JwsVerificationOptions::default(); if let Some(n) = c.o_nonce { vo = vo.nonce(nonce_str(n)); } if let Some(s) = scope_of(c.scope) { vo = vo.method_scope(s); }
   if let Some(u) = c.method_id { vo = vo.method_id(DIDUrl::parse(ustr(u)).unwrap()); } vo
 }
 
@@ -251,6 +253,13 @@ pub fn base_issuer() -> IssuerDoc {
     svc: vec![(u(7), 70), (u(8), 80), (u(9), 91)], bms: vec![(70, true, vec![5, 9, 70000]), (80, false, vec![]), (91, false, vec![])] }
 }
 pub fn other_issuer() -> IssuerDoc { IssuerDoc { id: 2, vm: vec![(U { d: 2, r: 0, f: 0 }, 20)], svc: vec![(U { d: 2, r: 0, f: 7 }, 71)], bms: vec![(71, true, vec![1])], ..Default::default() } }
+fn to_did4(c: &mut Case) {
+  let f = |u: &mut U| if u.d == 1 { u.d = 4; };
+  let i = &mut c.issuers[0]; i.id = 4;
+  for (u, _) in i.vm.iter_mut() { f(u); } for (u, _) in i.svc.iter_mut() { f(u); }
+  for l in i.rels.iter_mut() { for e in l.iter_mut() { match e { Ent::Embed(u, _) => f(u), Ent::Refer(u) => f(u) } } }
+  f(&mut c.kid.1); if let Some(st) = c.vc.status.as_mut() { f(&mut st.u); }
+}
 pub fn base_case() -> Case {
   Case { kind: 1, nonce: None, kid: (2, U { d: 1, r: 0, f: 0 }), sigkey: 10, claims_ok: true, bad: 0,
     vc: VC { issuer: Some(1), issued: 1000, expires: Some(5000), ctx_ok: true, type_ok: true, sub_id: Some(1), sub_empty: false, nontransf: None, status: Some(St { bitmap: true, wf: true, u: U { d: 1, r: 0, f: 7 }, idx: 3 }) },
@@ -261,7 +270,9 @@ pub fn mutations() -> Vec<(&'static str, Vec<fn(&mut Case)>)> {
   vec![
     ("nonce", vec![|c| { c.nonce = Some(1); c.o_nonce = Some(1); }, |c| { c.nonce = Some(1); c.o_nonce = Some(2); }, |c| c.nonce = Some(1), |c| c.o_nonce = Some(1),
       // "n1" is a proper prefix of "n10" and of "n12": a nonce must be compared as a whole
-      |c| { c.nonce = Some(1); c.o_nonce = Some(10); }, |c| { c.nonce = Some(12); c.o_nonce = Some(1); }]),
+      |c| { c.nonce = Some(1); c.o_nonce = Some(10); }, |c| { c.nonce = Some(12); c.o_nonce = Some(1); },
+      // the empty nonce is a nonce: absent vs "" on either side, and "" on both
+      |c| c.nonce = Some(0), |c| c.o_nonce = Some(0), |c| { c.nonce = Some(0); c.o_nonce = Some(0); }, |c| { c.nonce = Some(0); c.o_nonce = Some(1); }]),
     ("kid", vec![|c| c.kid = (0, U { d: 0, r: 0, f: -1 }), |c| c.kid = (1, U { d: 0, r: 0, f: -1 }), |c| c.kid.1.f = 5, |c| c.kid.1 = U { d: 2, r: 0, f: 0 }, |c| { c.kid.1.f = 1; c.sigkey = 11; }, |c| c.kid.1.f = 2, |c| { c.kid.1.f = 3; c.sigkey = 13; },
       |c| { c.kid.1 = U { d: 2, r: 0, f: 4 }; c.sigkey = 14; }, |c| c.kid.1.f = 6, |c| c.kid.1.r = 1, |c| c.kid.1.f = -1,
       |c| { c.kid.1.f = 11; c.sigkey = 17; }, |c| { c.kid.1.f = 12; c.sigkey = 18; }]),
@@ -269,6 +280,9 @@ pub fn mutations() -> Vec<(&'static str, Vec<fn(&mut Case)>)> {
     ("scope", vec![|c| c.scope = 0, |c| c.scope = 1, |c| c.scope = 2, |c| c.scope = 3, |c| c.scope = 4, |c| c.scope = 5]),
     ("signature", vec![|c| c.sigkey = 11, |c| c.sigkey = 99]),
     ("claims", vec![|c| c.claims_ok = false, |c| { c.claims_ok = false; c.bad = 1; }, |c| { c.claims_ok = false; c.bad = 1; c.vc.expires = Some(100); }, |c| { c.claims_ok = false; c.bad = 2; }, |c| { c.claims_ok = false; c.bad = 3; }, |c| { c.claims_ok = false; c.bad = 4; }, |c| { c.claims_ok = false; c.bad = 5; }, |c| { c.claims_ok = false; c.bad = 6; }, |c| { c.claims_ok = false; c.bad = 7; }]),
+    ("signer-did", vec![
+      // the signing document is DID 4 = DID 1 + ":sub": the credential's issuer (DID 1) is a proper PREFIX of the signer's DID
+      |c| { to_did4(c); }, |c| { to_did4(c); c.vc.issuer = Some(4); }]),
     ("issuer", vec![|c| c.vc.issuer = Some(2), |c| c.vc.issuer = None, |c| c.vc.issuer = Some(3), |c| c.vc.issuer = Some(4), |c| c.vc.issuer = Some(5)]),
     ("issuance", vec![|c| c.vc.issued = 1999, |c| c.vc.issued = 2000, |c| c.vc.issued = 2001]),
     ("unset-bounds", vec![|c| c.latest = BOUND_UNSET, |c| { c.latest = BOUND_UNSET; c.vc.issued = Y2200; }, |c| { c.latest = BOUND_UNSET; c.vc.issued = Y2200; c.earliest = Y2200 + 100; c.vc.expires = Some(Y2200 + 200); },
